@@ -448,11 +448,24 @@ func (s *State) navigate(v Value, path []Sel) Value {
 			if c.Arr != nil {
 				return c.Arr.Select(sel.Index)
 			}
-			if !sel.Index.IsConst() {
-				unsup("symbolic index into array of non-scalars")
-			}
-			if sel.Index.Val >= uint64(len(c.Vals)) {
-				unsup("index outside materialised non-scalar array")
+			if !sel.Index.IsConst() || sel.Index.Val >= uint64(len(c.Vals)) {
+				// Element of a table of non-scalars: every scalar leaf is an uninterpreted function of the index
+				// (so equal indices give equal values).  Object identity is per index TERM, therefore such
+				// elements are read-only: writing through them is refused.
+				if c.sym == nil {
+					c.sym = map[int]Value{}
+				}
+				if x, ok := c.sym[sel.Index.id]; ok {
+					v = x
+				} else {
+					if c.Name == "" {
+						c.Name = s.freshName("table")
+					}
+					x := s.symValueAt(c.Elem, c.Name, sel.Index)
+					c.sym[sel.Index.id] = x
+					v = x
+				}
+				continue
 			}
 			v = c.Vals[sel.Index.Val]
 		default:
@@ -518,6 +531,9 @@ func (s *State) store(p *PtrV, v Value, where string) {
 	o := s.derefCheck(p, where)
 	if o == nil {
 		return
+	}
+	if o.ReadOnly {
+		unsup("store through an element reached by a symbolic index")
 	}
 	s.heap[o.ID] = s.update(s.contents(o), p.Path, v)
 }
@@ -601,4 +617,62 @@ func (s *State) proves(cond *Term) bool {
 	ok := r.Status == "unsat"
 	provesCache.Store(q, ok)
 	return ok
+}
+
+func (s *State) markReadOnly(v Value) {
+	if p, ok := v.(*PtrV); ok {
+		old := p.lazy
+		if old != nil {
+			p.lazy = func() *Obj {
+				o := old()
+				o.ReadOnly = true
+				return o
+			}
+		}
+	}
+}
+
+// symValueAt: value of type t whose scalar leaves are uninterpreted functions base.path(idx).
+func (s *State) symValueAt(t types.Type, base string, idx *Term) Value {
+	if so, ok := sortOf(t); ok {
+		return App(base, so, idx)
+	}
+	switch u := t.Underlying().(type) {
+	case *types.Basic:
+		if u.Info()&types.IsString != 0 {
+			l := App(base+".len", BV(64), idx)
+			s.lenAssume(l)
+			return &StringV{Arr: &ArrVar{Name: s.freshName(base + ".str"), W: 8}, Len: l}
+		}
+	case *types.Pointer:
+		p := &PtrV{Nil: App(base+".isnil", BoolSort, idx), Elem: u.Elem()}
+		p.lazy = func() *Obj {
+			o := s.newObj(u.Elem(), s.symValueAt(u.Elem(), base+".", idx), base, false)
+			o.ReadOnly = true
+			return o
+		}
+		return p
+	case *types.Struct:
+		sv := &StructV{Type: t}
+		for i := 0; i < u.NumFields(); i++ {
+			sv.Fields = append(sv.Fields, s.symValueAt(u.Field(i).Type(), base+"."+u.Field(i).Name(), idx))
+		}
+		return sv
+	case *types.Interface:
+		iv := &IfaceV{Type: App(base+".type", BV(32), idx), Handle: App(base+".h", BV(64), idx), Static: t, alts: map[int]Value{}}
+		iv.mk = func(tid int) Value {
+			ty := typeByID[tid]
+			if ty == nil {
+				return nil
+			}
+			v := s.symValueAt(ty, base+".("+shortType(ty)+")", idx)
+			if p, ok := v.(*PtrV); ok {
+				p.Nil = False
+			}
+			return v
+		}
+		return iv
+	}
+	v := s.symValue(t, base)
+	return v
 }
